@@ -225,8 +225,9 @@ def run(ctx):
     return EXPLANATION
 
 
-def _dominating_facts(A, fn, node):
-    """facts {(atom, truth)} holding on every path from entry to the element containing `node` (P2), computed by forward dataflow on the CFG"""
+def _dominating_facts(A, fn, node, with_lines=False, all_blocks=False):
+    """facts {(atom, truth)} holding on every path from entry to the element containing `node` (P2), computed by forward dataflow on the CFG.
+    with_lines: facts are (atom, truth, line of the branch); all_blocks: return (IN map, target block)"""
     v = A.view(fn)
     target = None
     for b in v.blocks:
@@ -247,7 +248,7 @@ def _dominating_facts(A, fn, node):
             if t and len(ss) == 2 and t.get('k') != 'SwitchStmt':
                 ap = v.cond_atom(b['id'])
                 if ap is not None:
-                    fact = (ap[0], (i == 0) == ap[1])
+                    fact = (ap[0], (i == 0) == ap[1], t.get('l', 0)) if with_lines else (ap[0], (i == 0) == ap[1])
             preds.setdefault(s_, []).append((b['id'], fact))
     IN = {}
     entry = fn['entry']
@@ -272,4 +273,6 @@ def _dominating_facts(A, fn, node):
             if IN.get(b) != acc:
                 IN[b] = acc
                 changed = True
+    if all_blocks:
+        return IN, target
     return IN.get(target, set())
